@@ -214,6 +214,11 @@ def mon_c17(case_line, trace):
         return 'guard-not-reported: guard condition reached at read %d but outcome is %s' % (trip, outcome)
     if outcome == 'err:attack' and trip is None:
         return 'guard-spurious: AttackAttempt reported although no limit was exceeded (reads=%d bytes=%d)' % (len(sizes), sum(sizes))
+    # the handshake bytes are flushed: a handshake that reports success wrote something and its last flush attempt succeeded
+    if outcome == 'ok':
+        fl = [e for e in evs if e.startswith('F:')]
+        if any(e.startswith('W:') for e in evs) and (not fl or fl[-1] != 'F:ok'):
+            return 'flush-dropped: handshake reported success but its last transport flush was %s' % (fl[-1] if fl else 'never attempted')
     # writes: bytes accepted are exactly the offered stream once, in order: offered length decreases by accepted
     rest = None
     for e in evs:
